@@ -230,7 +230,7 @@ def parse(text):
 
 
 def run(ck, only=None):
-    if only and only.get("kind") == "sweep":
+    if only and only.get("kind") != "record":
         return
     wd = os.path.join(ck.wd, "records")
     os.makedirs(wd, exist_ok=True)
